@@ -9,6 +9,22 @@ use in_toto::crypto::PublicKey;
 use in_toto::interchange::{DataInterchange, Json, JsonPretty};
 use in_toto::models::{Metablock, MetablockBuilder, MetadataWrapper};
 
+struct ShortWriter {
+    buf: Vec<u8>,
+    max: usize,
+}
+
+impl std::io::Write for ShortWriter {
+    fn write(&mut self, data: &[u8]) -> std::io::Result<usize> {
+        let n = data.len().min(self.max);
+        self.buf.extend_from_slice(&data[..n]);
+        Ok(n)
+    }
+    fn flush(&mut self) -> std::io::Result<()> {
+        Ok(())
+    }
+}
+
 fn vblock_op(t: u32, auth: &[&KeyInfo], entries: &[Entry]) -> String {
     let mut op = format!("vblock {} A", t);
     for k in auth {
@@ -97,8 +113,19 @@ pub fn run(cfg: &Cfg) {
                     continue;
                 }
             };
-            for fmt in ["compact", "pretty", "JsonPretty", "Json"] {
+            for fmt in ["compact", "pretty", "JsonPretty", "Json", "Json(short writes)", "JsonPretty(short writes)"] {
                 let text = match fmt {
+                    // a destination that takes only part of the buffer per `write` call (a pipe, a socket, a
+                    // compressing or rate-limiting adaptor): the document must arrive whole all the same
+                    "Json(short writes)" | "JsonPretty(short writes)" => {
+                        let mut w = ShortWriter { buf: vec![], max: *r.pick(&[1usize, 7, 64, 1000, 1024]) };
+                        let res = if fmt.starts_with("JsonPretty") { JsonPretty::to_writer(&mut w, &mb) } else { Json::to_writer(&mut w, &mb) };
+                        if res.is_err() {
+                            sink.oracle(false, "writing signed metadata to a slow destination fails", &format!("{} path={} fmt={}", replay_base, path, fmt));
+                            continue;
+                        }
+                        w.buf
+                    }
                     "compact" => serde_json::to_vec(&mb).unwrap(),
                     "Json" => {
                         // the library's own compact interchange (canonical writer)
